@@ -14,15 +14,9 @@
 import ASV.Drv.J
 import ASV.Drv.C03
 import ASV.Spec.Components
-import ASV.Model.Lookup
+import ASV.Model.DetectRecord
 namespace ASV.Drv.C07
 open Lean ASV ASV.Drv ASV.Rules ASV.Proto
-
-/-- `record.get_cds_features_within_location` as C08 models the real function (not its specification):
-    the order of the genes it returns matters to `get_first_and_last` and `apply_extenders` -/
-def withinReal (r : Rec) : Lookup := fun loc ov =>
-  (ASV.Lookup.within (r.genes.map fun g => (⟨g.id, g.loc, []⟩ : ASV.Lookup.Gene)) loc ov).filterMap fun f =>
-    r.genes.find? (·.id == f.id)
 
 def pcJ (within : Lookup) (pc : PC) : Json :=
   jObj [("rule", Json.str pc.rule), ("core", locToJson pc.core), ("loc", locToJson pc.loc),
